@@ -77,7 +77,7 @@ def xml_of(n):
     if k == "r":
         return "".join(xml_of(c) for c in n["kids"])
     if k == "e":
-        at = "".join(' %s="1"' % a["name"] for a in n["attrs"])
+        at = "".join(' %s="%s"' % (a["name"], a.get("value", "1")) for a in n["attrs"])
         if not n["kids"]:
             return "<%s%s/>" % (n["name"], at)
         return "<%s%s>%s</%s>" % (n["name"], at, "".join(xml_of(c) for c in n["kids"]), n["name"])
@@ -88,6 +88,53 @@ def xml_of(n):
     if k == "p":
         return "<?%s d?>" % n["name"]
     raise ValueError(k)
+
+
+def add_ids(r, root):
+    """give about half of the elements an ID attribute `id` (first attribute); returns {id value: element}"""
+    ids = {}
+
+    def go(n):
+        if n["kind"] == "e":
+            if r.chance(1, 2):
+                v = "v%d" % len(ids)
+                n["attrs"].insert(0, dict(kind="a", name="id", value=v, attrs=[], kids=[]))
+                ids[v] = n
+            for c in n["kids"]:
+                go(c)
+    for c in root["kids"]:
+        go(c)
+    return ids
+
+
+def xml_with_dtd(root):
+    """document with an internal subset declaring `id` as an ID attribute of every element type used"""
+    names = set()
+
+    def go(n):
+        if n["kind"] == "e":
+            names.add(n["name"])
+        for c in n["kids"]:
+            go(c)
+    go(root)
+    de = [k for k in root["kids"] if k["kind"] == "e"][0]["name"]
+    return "<!DOCTYPE %s [%s]>%s" % (de, "".join("<!ATTLIST %s id ID #IMPLIED>" % x for x in sorted(names)), xml_of(root))
+
+
+def index_of(root):
+    """{id(node dict): document-order index}"""
+    idx = {}
+    cnt = [0]
+
+    def go(n):
+        idx[id(n)] = cnt[0]
+        cnt[0] += 1
+        for a in n["attrs"]:
+            go(a)
+        for c in n["kids"]:
+            go(c)
+    go(root)
+    return idx
 
 
 def table_of(root):
@@ -199,9 +246,12 @@ def gen_test(r, attr, exotic):
 
 
 def gen_pred(r):
-    k = r.weighted([("i", 5), ("last", 3), ("pe", 2), ("pnl", 1), ("a", 4), ("c", 3), ("na", 2)])
-    if k in ("i", "pe"):
+    k = r.weighted([("i", 5), ("last", 3), ("pe", 2), ("pnl", 1), ("le", 2), ("lg", 2), ("pll", 1), ("lm1", 1),
+                    ("a", 4), ("c", 3), ("na", 2)])
+    if k in ("i", "pe", "le"):
         return (k, r.weighted([(1, 5), (2, 4), (3, 1), (0, 1)]))
+    if k == "lg":
+        return (k, r.weighted([(0, 1), (1, 4), (2, 3)]))
     if k in ("a", "na"):
         return (k, r.choice(ANAMES))
     if k == "c":
@@ -219,17 +269,6 @@ def gen_step(r, last, exotic):
         preds = [p for p in (gen_pred(r) for _ in range(npred)) if p[0] in ("a", "c", "na")]
     else:
         preds = [gen_pred(r) for _ in range(npred)]
-    # model domain: at most one predicate per step calls position() (the context-position cache of the execution
-    # context is stale for a second one: expression-evaluation defect, see Pattern.lean Step.valid)
-    seen = False
-    kept = []
-    for p in preds:
-        if p[0] in ("pe", "pnl"):
-            if seen:
-                continue
-            seen = True
-        kept.append(p)
-    preds = kept
     test = gen_test(r, attr, exotic)
     if attr and test[0] not in ("n", "any"):
         # attribute::node()[k] counts the namespace-declaration attributes of the DOM (xmlns:xml on the document
@@ -269,6 +308,7 @@ def render_test(t):
 def render_pred(p):
     k, a = p
     return {"i": "[%s]" % a, "last": "[last()]", "pe": "[position()=%s]" % a, "pnl": "[position()!=last()]",
+            "le": "[last()=%s]" % a, "lg": "[last()>%s]" % a, "pll": "[position()<last()]", "lm1": "[last()-1]",
             "a": "[@%s]" % a, "c": "[%s]" % a, "na": "[not(@%s)]" % a}[k]
 
 
@@ -298,7 +338,7 @@ def tok_test(t):
 
 def tok_pred(p):
     k, a = p
-    if k in ("i", "pe"):
+    if k in ("i", "pe", "le", "lg"):
         return "%s%d" % (k, a)
     if k in ("a", "c", "na"):
         return "%s.%s" % (k, a)
@@ -358,6 +398,7 @@ def shape_of(P):
         ps = ""
         for pk, pa in s["preds"]:
             ps += {"i": "[K]", "last": "[last()]", "pe": "[position()=K]", "pnl": "[position()!=last()]", "a": "[@N]",
+                   "le": "[last()=K]", "lg": "[last()>K]", "pll": "[position()<last()]", "lm1": "[last()-1]",
                    "c": "[N]", "na": "[not(@N)]"}[pk]
         return ("@" if s["attr"] else "") + t + ps
     outs = []
